@@ -74,9 +74,10 @@ class WaterCycleOptimization(OptimizationAbstract):
         self.__streams = {
             idx: list(map(lambda s: evolve_stream(idx, s), streams)) for idx, streams in self.__streams.items()
         }
+        # a river that was assigned no stream keeps its position
         self.__pop_best = [self._greedy_select_agent(
             best_agent(self.__streams[idx]), stream
-        ) for idx, stream in enumerate(self.__pop_best)]
+        ) if self.__streams[idx] else stream for idx, stream in enumerate(self.__pop_best)]
 
         # Evaporation
         evaporation_indexes = [idx for idx in range(1, nsr) if distance(
